@@ -113,6 +113,7 @@ the "log.error_file" config entry, for example).
 import datetime
 import logging
 import os
+import re
 import sys
 
 import cherrypy
@@ -122,6 +123,9 @@ from cherrypy import _cperror
 # Silence the no-handlers "warning" (stderr write!) in stdlib logging
 logging.Logger.manager.emittedNoHandlerWarning = 1
 logfmt = logging.Formatter('%(message)s')
+
+# A run of backslashes that a double quote, or the end of the value, follows.
+_backslashes_before_quote = re.compile(r'\\+(?="|\Z)')
 
 
 class NullHandler(logging.Handler):
@@ -272,6 +276,11 @@ class LogManager(object):
         for k, v in atoms.items():
             if not isinstance(v, str):
                 v = str(v)
+            # A backslash of the value is written as a single backslash. One
+            # that stands right before a double quote, or at the very end
+            # (right before the quote that closes the field), would then read
+            # as escaping that quote: write exactly those doubled.
+            v = _backslashes_before_quote.sub(r'\g<0>\g<0>', v)
             v = v.replace('"', '\\"').encode('utf8')
             # Fortunately, repr(str) escapes unprintable chars, \n, \t, etc
             # and backslash for us. All we have to do is strip the quotes.
